@@ -26,14 +26,21 @@ def one(job):
         r = subprocess.run(["git", "-C", root, "apply", "--whitespace=nowarn", os.path.join(d, "patch.diff")], capture_output=True, text=True)
         rec["patch_applies"] = r.returncode == 0
         if r.returncode == 0:
+            # the checks that caught it when it was filed (some changes are caught by another property's check than the one they were
+            # written against - recorded in detected_by); the first of them that reports is enough
+            checks = [c for c, v in meta.get("detected_by", {}).items() if v.get("verdict") == "CAUGHT"] or [prop]
             for seed in seeds:
                 env = dict(os.environ, VERIF_REPO=root, VERIF_SEED=str(seed), PYTHONDONTWRITEBYTECODE="1", PYTHONHASHSEED="0",
                            VERIF_EVIDENCE_DIR=scratch + "/ev", VERIF_REPLAY_DIR=scratch + "/rp")
                 t0 = time.time()
-                p = subprocess.run([PY, "-B", os.path.join(HERE, "run_check.py"), prop, "--tier", "quick"], capture_output=True, text=True, env=env, timeout=3000)
-                line = next((l for l in p.stdout.splitlines() if l.startswith(("VIOLATION", "INCONCLUSIVE"))), "")
-                rec["runs"].append({"seed": seed, "verdict": {0: "MISSED", 1: "CAUGHT", 2: "INCONCLUSIVE"}.get(p.returncode, f"rc{p.returncode}"),
-                                    "wall_s": round(time.time() - t0, 1), "first": line[:200]})
+                verdict, line, used = "MISSED", "", None
+                for chk in checks:
+                    p = subprocess.run([PY, "-B", os.path.join(HERE, "run_check.py"), chk, "--tier", "quick"], capture_output=True, text=True, env=env, timeout=3000)
+                    line = next((l for l in p.stdout.splitlines() if l.startswith(("VIOLATION", "INCONCLUSIVE"))), "")
+                    verdict, used = {0: "MISSED", 1: "CAUGHT", 2: "INCONCLUSIVE"}.get(p.returncode, f"rc{p.returncode}"), chk
+                    if verdict == "CAUGHT":
+                        break
+                rec["runs"].append({"seed": seed, "check": used, "verdict": verdict, "wall_s": round(time.time() - t0, 1), "first": line[:200]})
             if any(r["verdict"] != "CAUGHT" for r in rec["runs"]):
                 # does the change still break anything on the current HEAD?  (a later fix: commit may have made it inert)
                 p = subprocess.run([PY, "-B", os.path.join(d, "demo.py")], cwd=root, capture_output=True, text=True, timeout=600,
